@@ -20,6 +20,8 @@ fn walk(dir: &Path, base: &Path, out: &mut BTreeMap<String, Vec<u8>>) {
 }
 
 pub struct CliRun {
+    /// stage events written by the cfg(nitrogql_verif) hook of the CLI (one JSON value per stage), in order
+    pub stages: Vec<Value>,
     pub exit: i32,
     pub signal: bool,
     pub stdout: String,
@@ -40,9 +42,13 @@ pub fn run_project(cli: &str, dir: &Path, files: &[(String, String)], args: &[St
     }
     let mut before = BTreeMap::new();
     walk(dir, dir, &mut before);
+    // the stage trace lives OUTSIDE the project directory (the directory is diffed before / after)
+    let trace_path = dir.with_extension("stages");
+    let _ = std::fs::remove_file(&trace_path);
     let mut child = Command::new(cli)
         .args(args)
         .current_dir(dir)
+        .env("NITROGQL_VERIF_TRACE", &trace_path)
         .env_remove("RUST_LOG")
         .env("NO_COLOR", "1")
         .stdin(Stdio::null())
@@ -72,7 +78,12 @@ pub fn run_project(cli: &str, dir: &Path, files: &[(String, String)], args: &[St
     let timed_out = wd.join().unwrap_or(false);
     let mut after = BTreeMap::new();
     walk(dir, dir, &mut after);
+    let stages: Vec<Value> = std::fs::read_to_string(&trace_path)
+        .map(|t| t.lines().filter_map(|l| serde_json::from_str::<Value>(l).ok()).collect())
+        .unwrap_or_default();
+    let _ = std::fs::remove_file(&trace_path);
     CliRun {
+        stages,
         exit: if timed_out { -2 } else { out.status.code().unwrap_or(-1) },
         signal: out.status.code().is_none(),
         stdout: String::from_utf8_lossy(&out.stdout).into_owned(),
@@ -112,7 +123,7 @@ impl CliRun {
         json!({
             "exit": self.exit, "signal": self.signal, "panicked": self.panicked(),
             "stdout": self.stdout, "stderr": self.stderr.chars().take(4000).collect::<String>(),
-            "written": written.keys().collect::<Vec<_>>(), "deleted": self.deleted(),
+            "written": written.keys().collect::<Vec<_>>(), "deleted": self.deleted(), "stages": self.stages,
             "texts": if include_texts { json!(written) } else { json!({}) },
         })
     }
